@@ -9,6 +9,7 @@ import (
 	"github.com/go-kid/ioc/syslog"
 	"github.com/go-kid/ioc/util/sort2"
 	"github.com/pkg/errors"
+	"sort"
 )
 
 type defaultFactory struct {
@@ -34,6 +35,8 @@ func Default() container.Factory {
 
 func (f *defaultFactory) PrepareComponents() error {
 	singletonNames := f.singletonRegistry.GetSingletonNames()
+	//the registry enumerates in random order: the order in which processors are registered and run must not depend on it
+	sort.Strings(singletonNames)
 	f.registeredComponents = make(map[string]any, len(singletonNames))
 	var factoryPostProcessors []container.ComponentFactoryPostProcessor
 	for _, name := range singletonNames {
@@ -263,6 +266,11 @@ func (f *defaultFactory) populateComponent(name string, meta *component_definiti
 		f.logger().Tracef("inject dependencies for '%s'", name)
 		for _, node := range meta.GetComponentProperties() {
 			if dependencies := node.Injects; len(dependencies) != 0 {
+				//like Refresh, create the dependencies of one point in name order: which of two mutually dependent
+				//components is created first decides what the other one is handed, so it must not be left to the enumeration order
+				sort.SliceStable(dependencies, func(i, j int) bool {
+					return dependencies[i].Name() < dependencies[j].Name()
+				})
 				var injects []*component_definition.Meta
 				for _, dependency := range node.Injects {
 					f.logger().Tracef("found dependency '%s' for '%s', start to get or create", dependency.Name(), name)
